@@ -553,6 +553,91 @@ def ver5_introspection_attrs(ctx: Ctx) -> None:
         raise AnalysisError(f"VER-5: only {n} introspection attribute reads found (>= 60 confirmed by hand)")
 
 
-RULES = [ver0_compiles, ver1_opcodes, ver2_dispatch, ver3_bindings, opc4_names, ver4_stdlib_api, ver5_introspection_attrs]
+def ver5b_dynamic_attr_names(ctx: Ctx) -> None:
+    """VER-5b attribute names handed to getattr / hasattr as strings -- literal, or built from the constant arguments of an
+    enclosing factory (f"{prefix}_await" with prefix in {"gi", "cr", "ag"}) -- that look like attributes of the interpreter's
+    introspection objects exist on those objects on every supported interpreter (a default argument of getattr would hide the
+    AttributeError: generators have gi_yieldfrom, not gi_await)"""
+    import itertools
+    IA = {v: ctx.F["interp"][v]["introspection_attrs"] for v in ctx.V.all}
+    n = 0
 
-API = [ver3_bindings, ver4_stdlib_api, ver5_introspection_attrs]
+    def enclosing_fns(mod: Mod, node: ast.AST) -> List[ast.AST]:
+        return [a for a in mod.ancestors(node) if isinstance(a, (ast.FunctionDef, ast.AsyncFunctionDef))]
+
+    def values(mod: Mod, e: ast.AST, at: ast.AST, depth: int = 0) -> Optional[Set[str]]:
+        if depth > 4:
+            return None
+        if isinstance(e, ast.Constant) and isinstance(e.value, str):
+            return {e.value}
+        if isinstance(e, ast.JoinedStr):
+            parts: List[Set[str]] = []
+            for p_ in e.values:
+                if isinstance(p_, ast.Constant):
+                    parts.append({str(p_.value)})
+                elif isinstance(p_, ast.FormattedValue) and p_.conversion == -1 and p_.format_spec is None:
+                    v = values(mod, p_.value, at, depth + 1)
+                    if v is None:
+                        return None
+                    parts.append(v)
+                else:
+                    return None
+            return {"".join(c) for c in itertools.product(*parts)}
+        if isinstance(e, ast.BinOp) and isinstance(e.op, ast.Add):
+            l, r = values(mod, e.left, at, depth + 1), values(mod, e.right, at, depth + 1)
+            if l is None or r is None:
+                return None
+            return {a + b for a in l for b in r}
+        if isinstance(e, ast.Name):
+            for fn in enclosing_fns(mod, at):
+                params = [a.arg for a in fn.args.posonlyargs + fn.args.args + fn.args.kwonlyargs]
+                if e.id in params:
+                    # constant arguments at the call sites of this function in the module
+                    idx = params.index(e.id)
+                    out: Set[str] = set()
+                    calls = [c for c in ast.walk(mod.tree) if isinstance(c, ast.Call) and isinstance(c.func, ast.Name) and c.func.id == fn.name]
+                    if not calls:
+                        return None
+                    for c in calls:
+                        arg = c.args[idx] if idx < len(c.args) else next((k.value for k in c.keywords if k.arg == e.id), None)
+                        if isinstance(arg, ast.Constant) and isinstance(arg.value, str):
+                            out.add(arg.value)
+                        else:
+                            return None
+                    return out
+                assigns = [a for a in ast.walk(fn) if isinstance(a, ast.Assign) and len(a.targets) == 1 and isinstance(a.targets[0], ast.Name) and a.targets[0].id == e.id
+                           and mod.enclosing_def(a) is fn]
+                if len(assigns) == 1:
+                    return values(mod, assigns[0].value, assigns[0], depth + 1)
+                if assigns:
+                    return None
+            return None
+        return None
+
+    for mn in VER_MODULES:
+        mod = ctx.P.mod(mn)
+        for c in ast.walk(mod.tree):
+            if not (isinstance(c, ast.Call) and isinstance(c.func, ast.Name) and c.func.id in ("getattr", "hasattr") and len(c.args) >= 2):
+                continue
+            vs = values(mod, c.args[1], c)
+            if not vs:
+                continue
+            for s_ in sorted(vs):
+                pref = next((p_ for p_ in ("co_", "gi_", "cr_", "ag_", "tb_") if s_.startswith(p_)), None)
+                if pref is None:
+                    continue
+                n += 1
+                bad = sorted(v for v in ctx.V.all if s_ not in IA[v][pref])
+                if bad:
+                    hidden = " (the default argument hides the AttributeError: the value is silently the default)" if c.func.id == "getattr" and len(c.args) == 3 else ""
+                    ctx.R.fail("VER-5", mod, c, f"`{norm(c)[:60]}` looks up the attribute name '{s_}', which the {pref}* objects do not have on CPython {bad}{hidden}",
+                               construct=f"dynamic attribute name {s_}")
+                else:
+                    ctx.R.ok("VER-5", f"{mn}.{mod.qualname_of(c)}: {c.func.id}(..., '{s_}')", "exists on every supported interpreter")
+    if n < 2:
+        raise AnalysisError(f"VER-5b: {n} string-named introspection attributes found (>= 2 confirmed by hand: hasattr(referent, 'ag_frame' / 'cr_frame'))")
+
+
+RULES = [ver0_compiles, ver1_opcodes, ver2_dispatch, ver3_bindings, opc4_names, ver4_stdlib_api, ver5_introspection_attrs, ver5b_dynamic_attr_names]
+
+API = [ver3_bindings, ver4_stdlib_api, ver5_introspection_attrs, ver5b_dynamic_attr_names]
